@@ -475,8 +475,57 @@ def gen_hval(out):
     out.append('Definition hval_types : list (list N) := %s.' % coq_list(coq_str(t) for t in types))
 
 
+HTML_ORDER = ['&', '<', '>', '"', "'"]
+
+
+def _html_escape_probe():
+    """ask the code: which single characters does html_escape rewrite, and is it a character-by-character
+    map (the ampersands of the produced entities are not escaped again)?  Returns a replace chain that computes
+    the same function: '&' first, then the other rewritten characters."""
+    import random
+    f = rt('ombott.common_helpers').html_escape
+    mapping = {}
+    for cp in list(range(0, 0x3000)) + [0xFF02, 0xFF06, 0xFF07, 0xFF1C, 0xFF1E, 0xFE64, 0xFE65, 0x10000]:
+        if 0xD800 <= cp <= 0xDFFF:
+            continue
+        c = chr(cp)
+        r = f(c)
+        if r != c:
+            mapping[c] = r
+    if not mapping:
+        raise Shape('html_escape: probing found no rewritten character')
+    rng = random.Random(20260930)
+    alphabet = list(mapping) + ['a', ' ', ';', '#', 'l', 't', 'm', 'p', '0', '3', '9', 'é']
+    for _ in range(4000):
+        t = ''.join(rng.choice(alphabet) for _ in range(rng.randrange(0, 12)))
+        if f(t) != ''.join(mapping.get(c, c) for c in t):
+            raise Shape('html_escape: not a character-by-character map (probe %r)' % t)
+    order = [c for c in HTML_ORDER if c in mapping] + sorted(c for c in mapping if c not in HTML_ORDER)
+    if any('&' in mapping[c] for c in mapping) and order[0] != '&' and '&' in mapping:
+        raise Shape('html_escape: ampersand order')
+    # as a replace chain the per-character map is: '&' first (if rewritten), then the rest — provided no
+    # replacement text contains a LATER rewritten character (checked)
+    for i, c in enumerate(order):
+        for d in order[i + 1:]:
+            if d in mapping[c]:
+                raise Shape('html_escape: replacement of %r contains the later rewritten %r' % (c, d))
+    return [(c, mapping[c]) for c in order]
+
+
 @group('helpers.html_escape')
 def gen_html_escape(out):
+    try:
+        _gen_html_escape_ast(out)
+    except Shape as e:
+        del out[:]
+        chain = _html_escape_probe()
+        out.append('(* html_escape: obtained by probing (source shape not recognised: %s) *)'
+                   % str(e).replace('*)', '* )').replace('(*', '( *')[:120])
+        out.append('Definition html_escape_chain : list (N * list N) := %s.' %
+                   coq_list('(%d%%N, %s)' % (ord(a), coq_str(b)) for a, b in chain))
+
+
+def _gen_html_escape_ast(out):
     tree, _ = parse('ombott/common_helpers.py')
     ns = vars(rt('ombott.common_helpers'))
     # html_escape: chain of .replace(a, b), possibly split over several `name = ...replace(...)` statements
@@ -810,14 +859,99 @@ def gen_framework_errors(out):
     out.append('Definition unsupported_type_error : Z * list N := (%d%%Z, %s).' % (prefix[0], coq_str(prefix[1])))
 
 
+def _critical_probe():
+    """ask the code: serve a request whose error handler itself fails (the last-resort page), with debug off
+    and on, and read the page back as templates around the values that went in"""
+    import io
+    import html
+    mod = rt('ombott.ombott')
+
+    def serve(debug, path='/Xq7Path'):
+        app = mod.Ombott(dict(debug=debug, catchall=True))
+
+        @app.error(404)
+        def boom(err):
+            raise ValueError('Xq7Exc')
+        env = {'REQUEST_METHOD': 'GET', 'PATH_INFO': path, 'QUERY_STRING': '', 'SERVER_NAME': 'l',
+               'SERVER_PORT': '80', 'SERVER_PROTOCOL': 'HTTP/1.1', 'wsgi.url_scheme': 'http',
+               'wsgi.input': io.BytesIO(b''), 'wsgi.errors': io.StringIO(), 'SCRIPT_NAME': ''}
+        got = {}
+
+        def sr(st, hd, ei=None):
+            got['st'], got['hd'] = st, list(hd)
+        body = b''.join(app(env, sr)).decode('utf8')
+        return got, body
+    g0, plain = serve(False)
+    g1, dbg = serve(True)
+    if plain.count('/Xq7Path') != 1 or not dbg.startswith(plain):
+        raise Shape('wsgi: probing the last-resort page: unexpected page %r' % plain[:80])
+    crit = plain.replace('%', '%%').replace('/Xq7Path', '%s')
+    rest = dbg[len(plain):]
+    rep = html.escape(repr(ValueError('Xq7Exc')), quote=True).replace('&#x27;', '&#039;')
+    i = rest.find(rep)
+    t0 = rest.find('Traceback (most recent call last)', i + len(rep))
+    t1 = rest.rfind('ValueError: Xq7Exc\n')
+    if i < 0 or t0 < 0 or t1 < t0:
+        raise Shape('wsgi: probing the last-resort page: debug part not recognised')
+    t1 += len('ValueError: Xq7Exc\n')
+    dfmt = (rest[:i].replace('%', '%%') + '%s' + rest[i + len(rep):t0].replace('%', '%%') + '%s'
+            + rest[t1:].replace('%', '%%'))
+    if g0.get('st') != g1.get('st') or g0.get('hd') != g1.get('hd') or not g0.get('st', '').startswith('500 '):
+        raise Shape('wsgi: probing the last-resort page: status/headers')
+    # the path must arrive escaped exactly as common_helpers.html_escape does it
+    evil = '/<b>&"\'x'
+    _, page = serve(False, evil)
+    want = crit.replace('%%', '\0').replace('%s', rt('ombott.common_helpers').html_escape(evil)).replace('\0', '%')
+    if page != want:
+        raise Shape('wsgi: probing the last-resort page: the path is not html_escape()d into the page')
+    return crit, dfmt, g0['st'], g0['hd']
+
+
+def _wsgi_closure(tree, cls):
+    """Ombott.wsgi together with the methods / module-level functions it calls (two levels), as AST nodes"""
+    funcs = {n.name: n for n in tree.body if isinstance(n, ast.FunctionDef)}
+    meths = {n.name: n for n in cls.body if isinstance(n, ast.FunctionDef)}
+    seen, todo = [], [find_func(cls, 'wsgi')]
+    for _ in range(3):
+        nxt = []
+        for f in todo:
+            if f in seen:
+                continue
+            seen.append(f)
+            for n in ast.walk(f):
+                if isinstance(n, ast.Call):
+                    nm = n.func.id if isinstance(n.func, ast.Name) else n.func.attr if isinstance(n.func, ast.Attribute) else None
+                    for tab in (funcs, meths):
+                        if nm in tab and tab[nm] not in seen and nm not in ('_handle', '_cast', 'handler', 'default_error_handler'):
+                            nxt.append(tab[nm])
+        todo = nxt
+    return seen
+
+
 @group('errtexts.critical_page')
 def gen_critical_page(out):
-    # last-resort page: its texts may sit in the function or in module-level constants the function names
+    try:
+        _gen_critical_page_ast(out)
+    except Shape as e:
+        del out[:]
+        crit, dfmt, st, hd = _critical_probe()
+        out.append('(* last-resort page: obtained by probing (source shape not recognised: %s) *)'
+                   % str(e).replace('*)', '* )').replace('(*', '( *')[:120])
+        out.append('Definition critical_page_fmt : list N := %s.' % coq_str(crit))
+        out.append('Definition critical_debug_fmt : list N := %s.' % coq_str(dfmt))
+        out.append('Definition critical_status_line : list N := %s.' % coq_str(st))
+        out.append('Definition critical_headers : list (list N * list N) := %s.' %
+                   coq_list('(%s, %s)' % (coq_str(a), coq_str(b)) for a, b in hd))
+
+
+def _gen_critical_page_ast(out):
+    # last-resort page: its texts may sit in the function, in helpers it calls, or in module-level constants
     tree, _ = parse('ombott/ombott.py')
     cls = find_class(tree, 'Ombott')
     mod = rt('ombott.ombott')
-    w = find_func(cls, 'wsgi')
-    src = ast.unparse(w)
+    closure = _wsgi_closure(tree, cls)
+    w = ast.Module(body=closure, type_ignores=[])
+    src = '\n'.join(ast.unparse(f) for f in closure)
     inside_f = {id(c) for n in ast.walk(w) if isinstance(n, ast.JoinedStr) for c in ast.walk(n) if c is not n}
     strs = [n.value for n in ast.walk(w) if isinstance(n, ast.Constant) and isinstance(n.value, str)
             and id(n) not in inside_f]
@@ -981,8 +1115,15 @@ def main():
         ltext = gen_loops.generate(parse)
     except (gen_loops.Shape, Shape, SyntaxError, KeyError, IndexError, AttributeError, TypeError, ValueError, OSError) as e:
         FAILED.append(('loops.iter_body', '%s: %s' % (type(e).__name__, e)))
-        ltext = ('(* GENERATED by tools/gen_loops.py - the loop could NOT be translated (fail-closed): %s *)\n'
-                 % str(e).replace('*)', '* )').replace('(*', '( *')[:300])
+        # keep the development compiling: translate the REFERENCE shape instead; the check reports the theorems
+        # marked `@requires-gen loops.iter_body` as not applicable to this tree
+        ref = os.path.join(os.path.dirname(os.path.abspath(__file__)), 'gen_loops_reference.py')
+        with open(ref) as f:
+            rsrc = f.read()
+        ltext = gen_loops.generate(lambda rel: (ast.parse(rsrc), rsrc))
+        ltext = ('(* NOT the current source: the loop could not be translated (%s); this is the translation of the '
+                 'reference shape tools/gen_loops_reference.py *)\n' % str(e).replace('*)', '* )').replace('(*', '( *')[:300]
+                 + ltext)
     write_if_changed(lout, ltext)
     import json
     with open(os.path.join(os.path.dirname(out), 'GEN_STATUS.json'), 'w') as f:
